@@ -24,7 +24,7 @@ ASSUMPTIONS = [
     "reads delivered between transport.close() and connection_lost model several TLS records in one TCP segment (PyOpenSSL pump) / FLUSHING state (asyncio SSL)",
 ]
 
-MODES = ["burst", "settle", "gated"]
+MODES = ["burst", "settle", "gated", "mw-gated"]
 
 
 def split_at(data: bytes, cuts) -> list[bytes]:
@@ -54,7 +54,8 @@ def _run(data: bytes, cuts, mode: str, uploads: bool = True):
         up = srvsim.build_upload(sim, {"kind": "value", "status": 20, "meta": "text/gemini", "body": "STORED",
                                        "gate": gated}) if uploads else None
         tr = FakeTransport(loop)
-        proto = GeminiServerProtocol(handler, None, up)
+        mw = srvsim.build_middleware(sim, [{"kind": "allow", "gate": True}]) if mode == "mw-gated" else None
+        proto = GeminiServerProtocol(handler, mw, up)
         tr.attach(proto)
         for ch in chunks:
             tr.feed(ch)
@@ -185,6 +186,115 @@ def random_case(draw):
     return {"data": b2s(data), "cuts": cuts, "mode": draw(st.sampled_from(MODES)), "uploads": draw(st.integers(0, 4)) > 0}
 
 
+# ------------------------------------------------------------------ TLS pump (PyOpenSSL stack, real ciphertext)
+
+TLS_REQS = [
+    [b"gemini://localhost/page\r\n"],
+    [b"gemini://localhost/", b"page\r\n", b"trailing"],
+    [b"titan://localhost/up.txt;size=11\r\n", b"hello world"],
+    [b"titan://localhost/up.txt;size=11\r\nhello", b" world", b"EXTRA"],
+    [b"titan://localhost/up.txt;size=0\r\n"],
+    [b"titan://localhost/up.txt;size=4\r\n", b"ab", b"cd", b"ef"],
+]
+
+
+def _tls_run(case, deliver):
+    """deliver: 'records' (one TCP read per TLS record/flight, loop iterations in between) or a cut list."""
+    import asyncio
+    import ssl
+
+    from vlib import memnet, stacks
+
+    setup_logging()
+    pieces = TLS_REQS[case["req"]]
+    ver = ssl.TLSVersion.TLSv1_3 if case["tls"] == "1.3" else ssl.TLSVersion.TLSv1_2
+
+    async def scenario(loop):
+        sim = srvsim.Sim(loop)
+        handler = srvsim.build_handler(sim, {"kind": "value", "status": 20, "meta": "text/gemini", "body": "BODY"})
+        up = srvsim.build_upload(sim, {"kind": "value", "status": 20, "meta": "text/gemini", "body": "STORED"})
+        mw = srvsim.build_middleware(sim, [{"kind": "allow", "gate": False}]) if case.get("mw") else None
+        factory, sslctx = stacks.manual_stack("pyopenssl", handler, mw, up)
+        conn = memnet.ServerConn(loop, factory, sslctx, memnet.permissive_client_ctx(minv=ver, maxv=ver))
+        cl = conn.client
+        # first flight(s) until the client considers the handshake complete
+        tail = b""
+        for _ in range(10):
+            cl.step()
+            out = cl.take()
+            if cl.handshaken:
+                tail = out  # TLS 1.3: the client's Finished; TLS 1.2: empty
+                break
+            if out:
+                conn.tcp.feed(out)
+            await vloop.settle(3)
+        # the request as separate TLS records, produced before anything else is delivered
+        recs = []
+        for pc in pieces:
+            cl.obj.write(pc)
+            recs.append(cl.take())
+        stream = tail + b"".join(recs)
+        if deliver == "records":
+            for part in ([tail] if tail else []) + recs:
+                conn.tcp.feed(part)
+                await vloop.settle(3)
+        else:
+            prev = 0
+            for c in deliver:
+                if prev < c < len(stream):
+                    conn.tcp.feed(stream[prev:c])
+                    prev = c
+                    if case.get("settle"):
+                        await vloop.settle(2)
+            conn.tcp.feed(stream[prev:])
+        await vloop.settle(6)
+        await conn.pump()
+        await asyncio.sleep(100)
+        await conn.pump()
+        hc = [tuple(e[2:7]) for e in sim.log if e[0] == "handler"]
+        uc = [tuple(e[2:8]) for e in sim.log if e[0] == "upload"]
+        return bytes(cl.plain), hc, uc, len(stream), len(tail)
+
+    return vloop.run(scenario)
+
+
+def run_tls(case: dict):
+    base = _tls_run(case, "records")
+    n = base[3]
+    cuts = [c for c in case["cuts"] if 0 < c < n]
+    if case.get("frac"):
+        cuts = sorted({max(1, min(n - 1, int(f * n))) for f in case["frac"]})
+    got = _tls_run(case, cuts)
+    info = {"S": b2s(got[0][:40]), "h": len(got[1]), "u": len(got[2]), "stream_len": n, "finished_len": base[4], "cuts": cuts}
+    if len(got[1]) + len(got[2]) > 1 or len(base[1]) + len(base[2]) > 1:
+        return viol("handler-invoked-more-than-once", f"{len(got[1])}+{len(got[2])} (record-by-record: {len(base[1])}+{len(base[2])})", **info)
+    if got[:3] != base[:3]:
+        return viol("outcome-depends-on-ciphertext-segmentation",
+                    f"record-by-record delivery: {base[0][:40]!r} h={base[1]} u={base[2]}; cuts {cuts} of the {n}-byte stream "
+                    f"(Finished is {base[4]} bytes): {got[0][:40]!r} h={got[1]} u={got[2]}", **info)
+    return ok(**info)
+
+
+def enum_tls(tier):
+    for req in range(len(TLS_REQS)):
+        for tls in ("1.3", "1.2"):
+            for mw in (False, True):
+                # whole stream in one read, and fractions of the stream (offsets are resolved at run time)
+                yield {"req": req, "tls": tls, "mw": mw, "cuts": [], "settle": False}
+                for k in range(1, 24 if tier == "quick" else 64):
+                    d = 24 if tier == "quick" else 64
+                    yield {"req": req, "tls": tls, "mw": mw, "cuts": [], "frac": [k / d], "settle": bool(k % 2)}
+                    if k % 3 == 0:
+                        yield {"req": req, "tls": tls, "mw": mw, "cuts": [], "frac": [k / d, min(0.99, k / d + 0.1)], "settle": False}
+
+
+@st.composite
+def tls_random(draw):
+    return {"req": draw(st.integers(0, len(TLS_REQS) - 1)), "tls": draw(st.sampled_from(["1.3", "1.3", "1.2"])),
+            "mw": draw(st.booleans()), "cuts": sorted(set(draw(st.lists(st.integers(1, 400), max_size=6)))),
+            "settle": draw(st.booleans())}
+
+
 def _nontrivial(case, v):
     return bool(case["cuts"])
 
@@ -209,7 +319,31 @@ def _labels(case, v):
     return out
 
 
+def _nt_tls(case, v):
+    return True
+
+
+def _lab_tls(case, v):
+    out = ["tls" + case["tls"], "req:%d" % case["req"], "mw" if case.get("mw") else "nomw"]
+    cuts = v.info.get("cuts", [])
+    fl = v.info.get("finished_len", 0)
+    if not cuts:
+        out.append("one-read")
+    if fl and all(c > fl for c in cuts):
+        out.append("finished-coalesced-with-appdata")
+    if v.info.get("u"):
+        out.append("upload-ran")
+    return out
+
+
 LANES = [
+    Lane(name="tls-pump", run_case=run_tls, enumerate=enum_tls, budget={"quick": 1, "thorough": 1},
+         shards={"quick": 16, "thorough": 32}, nontrivial=_nt_tls, labels=_lab_tls,
+         rule="PyOpenSSL stack in memory: the client's Finished + request records (real ciphertext, TLS 1.2/1.3) delivered in "
+              "one read and cut at a grid of offsets, compared with record-by-record delivery"),
+    Lane(name="tls-pump-random", run_case=run_tls, strategy=tls_random, budget={"quick": 800, "thorough": 20000},
+         shards={"quick": 16, "thorough": 32}, nontrivial=_nt_tls, labels=_lab_tls,
+         rule="random multi-cut segmentations of the ciphertext stream"),
     Lane(name="exhaustive", run_case=run_seg, enumerate=enum_exhaustive, budget={"quick": 1, "thorough": 1},
          shards={"quick": 16, "thorough": 64}, nontrivial=_nontrivial, labels=_labels, exhaustive=True,
          rule="all 2^(n-1) segmentations of the short requests x 3 delivery modes"),
